@@ -247,4 +247,41 @@ theorem taiToUtcGo_val (p : Dur) (hp : p.Canon) (r : List LeapEntry) (hr : ∀ e
       rw [if_neg this, if_neg hc]
       exact ih hrest
 
+/-- the same under the WEAKEST hypothesis: the subtraction the scan performs does not hit the lower bound,
+    i.e. its exact result `goInt p` is representable (no margin) -/
+theorem taiToUtcGo_val_nosat (p : Dur) (hp : p.Canon) (r : List LeapEntry) (hr : ∀ e ∈ r, EntryOK e)
+    (hlo : DMIN ≤ goInt p.val (toNs r)) :
+    (taiToUtcGo p r).Canon ∧ (taiToUtcGo p r).val = goInt p.val (toNs r) := by
+  induction r with
+  | nil => exact ⟨hp, rfl⟩
+  | cons e r ih =>
+    have he := hr e (List.mem_cons_self ..)
+    have hrest : ∀ e ∈ r, EntryOK e := fun e he => hr e (List.mem_cons_of_mem _ he)
+    have hhead : headDns r = headD (toNs r) := by
+      cases r <;> rfl
+    have hhb : 0 ≤ headD (toNs r) ∧ headD (toNs r) < 1000000000000 := by
+      cases r with
+      | nil => simp [toNs, headD]
+      | cons y r => have := hrest y (List.mem_cons_self ..); unfold EntryOK at this; simp only [toNs, List.map_cons, headD]; omega
+    have hG : goInt p.val (toNs (e :: r)) = if e.ts * 1000000000 + headD (toNs r) ≤ p.val then p.val - e.dns else goInt p.val (toNs r) := rfl
+    rw [hG] at hlo ⊢
+    have hT : taiToUtcGo p (e :: r) = if Dur.cmp p (nsDur (e.ts * 1000000000 + headDns r)) ≠ -1 then Dur.sub p (nsDur e.dns) else taiToUtcGo p r := rfl
+    rw [hT, hhead]
+    have hn := nsDur_spec (e.ts * 1000000000 + headD (toNs r)) (by unfold EntryOK at he; omega)
+    have hdn := nsDur_spec e.dns (by unfold EntryOK at he; omega)
+    by_cases hc : e.ts * 1000000000 + headD (toNs r) ≤ p.val
+    · have : Dur.cmp p (nsDur (e.ts * 1000000000 + headD (toNs r))) ≠ -1 := (cmp_ge_iff p _ hp hn.1).mpr (by rw [hn.2]; exact hc)
+      rw [if_pos this, if_pos hc]
+      rw [if_pos hc] at hlo
+      have hs := sub_spec p (nsDur e.dns) hp hdn.1
+      refine ⟨hs.1, ?_⟩
+      have hr := canon_range p hp
+      unfold DMIN DMAX at *; simp only [NPCs_eq] at *
+      unfold EntryOK at he
+      rw [hs.2, hdn.2, clampD_mid] <;> omega
+    · have : ¬ Dur.cmp p (nsDur (e.ts * 1000000000 + headD (toNs r))) ≠ -1 := fun h => hc (by have := (cmp_ge_iff p _ hp hn.1).mp h; rw [hn.2] at this; exact this)
+      rw [if_neg this, if_neg hc]
+      rw [if_neg hc] at hlo
+      exact ih hrest hlo
+
 end Hifi
